@@ -615,6 +615,73 @@ class Body:
             return ("repeat", self.origin(rv["op"], depth + 1, through_calls, seen, chooser))
         return ("unknown",)
 
+    # ---- uses -----------------------------------------------------------------------------------
+    @staticmethod
+    def _op_local(o):
+        if "c" in o:
+            return o["c"]["l"]
+        if "m" in o:
+            return o["m"]["l"]
+        return None
+
+    @staticmethod
+    def rvalue_operands(rv):
+        k = rv["k"]
+        if k in ("use", "cast", "repeat"):
+            return [rv["op"]]
+        if k == "binop":
+            return [rv["a"], rv["b"]]
+        if k == "unop":
+            return [rv["a"]]
+        if k == "agg":
+            return list(rv["ops"])
+        return []
+
+    def uses(self, local, normal_only=True):
+        """Sites reading `local` (as operand base or borrowed/discriminated place)."""
+        out = []
+        blocks = self.normal_blocks() if normal_only else range(len(self.blocks))
+        for i in sorted(blocks):
+            b = self.blocks[i]
+            for j, s in enumerate(b["stmts"]):
+                if s["k"] != "assign":
+                    continue
+                rv = s["rv"]
+                hit = any(self._op_local(o) == local for o in self.rvalue_operands(rv))
+                if not hit and rv["k"] in ("ref", "rawptr", "discr") and rv["place"]["l"] == local:
+                    hit = True
+                if hit:
+                    out.append((i, j, "stmt", s))
+            t = b["term"]
+            k = t["k"]
+            if k in ("call", "tailcall"):
+                if any(self._op_local(a) == local for a in t["args"]):
+                    out.append((i, "term", "call", t))
+                elif "indirect" in t["callee"] and self._op_local(t["callee"]["op"]) == local:
+                    out.append((i, "term", "call", t))
+            elif k == "switch" and self._op_local(t["discr"]) == local:
+                out.append((i, "term", "switch", t))
+            elif k == "assert" and self._op_local(t["cond"]) == local:
+                out.append((i, "term", "assert", t))
+            elif k == "yield" and self._op_local(t["value"]) == local:
+                out.append((i, "term", "yield", t))
+        return out
+
+    def value_aliases(self, local):
+        """Locals that receive the value of `local` through plain moves/copies (whole-local)."""
+        al = {local}
+        changed = True
+        while changed:
+            changed = False
+            for i, j, s in self.statements(normal_only=True):
+                if s["k"] == "assign" and "p" not in s["place"] and s["rv"]["k"] == "use":
+                    o = s["rv"]["op"]
+                    src = o.get("c") or o.get("m")
+                    if src is not None and "p" not in src and src["l"] in al and s["place"]["l"] not in al:
+                        al.add(s["place"]["l"])
+                        changed = True
+        return al
+
     # ---- switch helpers -------------------------------------------------------------------------
     def switches(self, normal_only=True):
         for i, t in self.terminators("switch", normal_only=normal_only):
